@@ -54,7 +54,7 @@ def main():
             meta["existing_tests_output"] = out2[-1500:]
     finally:
         sh("git -C /repo worktree remove --force %s" % wt)
-    d = os.path.join(V, "seeded", sid)
+    d = os.path.join(os.environ.get("SEED_DEST", os.path.join(V, "seeded")), sid)   # SEED_DEST: when run from a `vp run` snapshot, write to /verif/seeded
     os.makedirs(d, exist_ok=True)
     for f in ("patch.diff", "demo_test.go", "notes.md"):
         if os.path.exists(os.path.join(src, f)):
